@@ -19,6 +19,9 @@ func main() {
 		os.Exit(2)
 	}
 	mod := os.Args[1]
+	// a goroutine whose stack passes 256 MB is recursing without end: let the runtime say so (fatal error: stack overflow) before
+	// the default limit of 1 GB has been filled by every shard at once
+	debug.SetMaxStack(256 << 20)
 	fs := flag.NewFlagSet(mod, flag.ExitOnError)
 	in := fs.String("in", "", "behaviours (JSON array of histories)")
 	out := fs.String("out", "trace.ndjson", "recorded trace")
